@@ -191,6 +191,31 @@ def checked(mod, case, rec):
         raise
 
 
+class lib_guard:
+    """Context manager for code outside `checked` (state machines): an
+    exception raised by the library becomes a Violation carrying `case`."""
+
+    def __init__(self, case_fn):
+        self.case_fn = case_fn
+
+    def __enter__(self):
+        return self
+
+    def __exit__(self, et, exc, tb):
+        if exc is None or isinstance(exc, (Violation, HarnessError)):
+            return False
+        if not isinstance(exc, Exception):
+            return False
+        who, where = _blame(exc)
+        if who == "repo":
+            raise Violation(
+                f"unexpected {type(exc).__name__}: {exc} raised at {where} "
+                "where the property promises a result",
+                self.case_fn(),
+            ) from exc
+        return False
+
+
 def run_cases(mod, cases, rec, stop_at_first=True):
     """Plain loop over deterministic cases (explicit, regression, exhaustive)."""
     for case in cases:
